@@ -1223,6 +1223,13 @@ int EGLPNUM_TYPENAME_ILLlib_addrow (
 	qslp = lp->O;
 	A = &qslp->A;
 
+	if (sense != 'L' && sense != 'E' && sense != 'G' && sense != 'R')
+	{
+		QSlog("illegal sense %c in EGLPNUM_TYPENAME_ILLlib_addrow", sense);
+		rval = 1;
+		ILL_CLEANUP;
+	}
+
 	for (i = 0; i < cnt; i++)
 	{
 		if (ind[i] < 0 || ind[i] >= qslp->nstruct)
